@@ -268,6 +268,37 @@ Proof.
     destruct (Nat.eqb_spec x mid) as [->|]; [eapply H2, Hl | eapply H2, Hx].
 Qed.
 
+Lemma set_msg_same_sm_inv st mid m m' ex :
+  lookup mid (msgs st) = Some m -> pm_client m' = pm_client m -> pm_seq m' = pm_seq m -> pm_sm m' = pm_sm m ->
+  CInvG st ex -> CInvG (set_msg st mid m') ex.
+Proof.
+  intros Hl Hc Hs Hsm [H1 H2]. split.
+  - intros c cl Hcl. cbn [set_msg clients] in Hcl.
+    assert (Hseq : forall x, seq_of (set_msg st mid m') x = seq_of st x).
+    { intro x. unfold seq_of, msg_seq. cbn [set_msg msgs]. rewrite lookup_update.
+      destruct (Nat.eqb_spec x mid) as [->|]; [rewrite Hl; exact Hs | reflexivity]. }
+    assert (Hdone : forall x, msg_done (set_msg st mid m') x = msg_done st x).
+    { intro x. unfold msg_done. cbn [set_msg msgs]. rewrite lookup_update.
+      destruct (Nat.eqb_spec x mid) as [->|]; [rewrite Hl, Hsm; reflexivity | reflexivity]. }
+    pose proof (H1 c cl Hcl) as [A B C D E].
+    constructor; auto.
+    + intro Ho. destruct (C Ho) as (C1 & C2 & C3). split; [|split; [exact C2|]].
+      * rewrite <- C1. apply map_ext. intro. apply Hseq.
+      * intros x Hin. cbn [set_msg msgs]. rewrite lookup_update.
+        destruct (Nat.eqb_spec x mid) as [->|]; [|apply C3, Hin].
+        destruct (C3 mid Hin) as (m0 & Hm0 & Hcm). rewrite Hl in Hm0. inversion Hm0; subst m0.
+        exists m'. split; [reflexivity | congruence].
+    + intros Hst Ho. specialize (E Hst Ho). destruct (pc_queue cl); [exact I | rewrite Hdone; exact E].
+  - intros x mx Hx. cbn [set_msg msgs next_mid] in *. rewrite lookup_update in Hx.
+    destruct (Nat.eqb_spec x mid) as [->|]; [eapply H2, Hl | eapply H2, Hx].
+Qed.
+
+Lemma mark_moved_inv st mid slot ex : CInvG st ex -> CInvG (mark_moved st mid slot) ex.
+Proof.
+  intro H. unfold mark_moved. destruct (lookup mid (msgs st)) as [m|] eqn:Hm; [|exact H].
+  apply set_msg_same_sm_inv with (m := m); auto.
+Qed.
+
 Lemma fail_msg_inv st mid e : CInvG st None ->
   match lookup mid (msgs st) with
   | Some m => CInvG (fail_msg st mid e) (Some (pm_client m)) /\
@@ -372,7 +403,7 @@ Proof.
             let mid := next_mid st in
             let sm := {| sm_type := cm_type m; sm_keys := cm_keys m; sm_frags := []; sm_done_number := 0; sm_del_num := 0;
                          sm_done := true; sm_rsp := out; sm_error := [] |} in
-            let st' := bump_mid (set_msg st mid {| pm_client := c; pm_sm := sm; pm_reqs := []; pm_seq := pc_sent cl |}) in
+            let st' := bump_mid (set_msg st mid {| pm_client := c; pm_sm := sm; pm_reqs := []; pm_seq := pc_sent cl; pm_moved := [] |}) in
             set_client st' c {| pc_open := pc_open cl; pc_left := pc_left cl; pc_queue := pc_queue cl ++ [mid]; pc_got := pc_got cl;
                                 pc_sent := S (pc_sent cl); pc_hist := pc_hist cl; pc_closing := pc_closing cl |}
         end) None).
@@ -430,7 +461,7 @@ Proof.
     rewrite Rc, Hl.
     set (mid := next_mid st1).
     set (pm := {| pm_client := c; pm_sm := smsg_of m (groups_for m);
-                  pm_reqs := map (fun sf : N * cfrag => (fst sf, cf_req (snd sf))) (cm_body m); pm_seq := pc_sent cl |}).
+                  pm_reqs := map (fun sf : N * cfrag => (fst sf, cf_req (snd sf))) (cm_body m); pm_seq := pc_sent cl; pm_moved := [] |}).
     set (st2 := bump_mid (set_msg st1 mid pm)).
     pose proof (fold_enqueue_same targets mid st2) as (Fc & Fm & Fn).
     set (st3 := fold_left (fun s (t : N * nat) => enqueue_out s (snd t) (FReq mid (fst t))) targets st2) in *.
@@ -515,12 +546,13 @@ Qed.
 (* ---------- replies ---------- *)
 Lemma on_moved_inv st f mid addr : CInvG st None -> CInvG (on_moved st f mid addr) None.
 Proof.
-  intro H. unfold on_moved.
-  destruct (find_pool st addr) as [p|].
-  - pose proof (same_cm_pool_get st p) as Hp. destruct (pool_get st p) as [st1 [s|]]; cbn [fst] in Hp.
+  intro H0. unfold on_moved. set (st1 := mark_moved st mid (frag_slot f)).
+  assert (H : CInvG st1 None) by (apply mark_moved_inv, H0).
+  destruct (find_pool st1 addr) as [p|].
+  - pose proof (same_cm_pool_get st1 p) as Hp. destruct (pool_get st1 p) as [st2 [s|]]; cbn [fst] in Hp.
     + eapply CInvG_same; [eapply same_cm_trans; [exact Hp | apply same_cm_enqueue_out] | exact H].
-    + apply (fail_and_flush_inv st1 mid ErrUnKnownProxyPoolConnError). eapply CInvG_same; eassumption.
-  - apply (fail_and_flush_inv st mid ErrUnKnownProxyPoolError H).
+    + apply (fail_and_flush_inv st2 mid ErrUnKnownProxyPoolConnError). eapply CInvG_same; eassumption.
+  - apply (fail_and_flush_inv st1 mid ErrUnKnownProxyPoolError H).
 Qed.
 
 Lemma on_reply_inv st s ty rsp st' : CInvG st None -> on_reply st s ty rsp = ROk st' -> CInvG st' None.
@@ -539,7 +571,7 @@ Proof.
     destruct (merge_step Hash (cf_limit (cfg st0)) (pm_sm m) slot ty rsp) as [[sm'|]|w|]; try discriminate.
     2:{ intro E. inversion E; subst. exact H0. }
     destruct (is_auth_failure ty); [discriminate|].
-    set (m' := {| pm_client := pm_client m; pm_sm := sm'; pm_reqs := pm_reqs m; pm_seq := pm_seq m |}).
+    set (m' := {| pm_client := pm_client m; pm_sm := sm'; pm_reqs := pm_reqs m; pm_seq := pm_seq m; pm_moved := pm_moved m |}).
     assert (H1 : CInvG (set_msg st0 mid m') (Some (pm_client m))).
     { apply set_msg_inv with (m := m) (ex := None); [exact Hm | reflexivity | reflexivity | left; reflexivity | exact H0]. }
     destruct (lookup (pm_client m) (clients (set_msg st0 mid m'))) as [cl|] eqn:Hcl.
@@ -689,25 +721,32 @@ Qed.
 (* ---------- redirects (C13) ---------- *)
 (* a MOVED/ASK reply for a fragment that is still open, naming a node with a pool that yields a
    connection: the fragment is re-queued at the tail of that connection's out queue; nothing is
-   written to the client and the request stays open *)
+   written to the client, and no request changes state (only the ghost mark "redirected") *)
 Theorem redirect_requeues st s sv f inq' mid slot ty rsp p st1 s2 :
   lookup s (servers st) = Some sv -> ps_inq sv = f :: inq' -> f = FReq mid slot ->
   let st0 := set_inflight (set_server st s {| ps_open := ps_open sv; ps_addr := ps_addr sv; ps_slave := ps_slave sv;
                  ps_initializing := ps_initializing sv; ps_step := ps_step sv; ps_left := ps_left sv;
                  ps_outq := ps_outq sv; ps_inq := inq'; ps_got := ps_got sv; ps_written := ps_written sv;
                  ps_taken := S (ps_taken sv) |}) (remove_first_inflight s f (inflight st)) in
+  let stm := mark_moved st0 mid slot in
   frag_done st0 mid slot = false -> (ty = RspMoved \/ ty = RspAsk) ->
-  find_pool st0 (parse_moved ty rsp) = Some p -> pool_get st0 p = (st1, Some s2) ->
+  find_pool stm (parse_moved ty rsp) = Some p -> pool_get stm p = (st1, Some s2) ->
   on_reply st s ty rsp = ROk (enqueue_out st1 s2 f) /\
-  clients (enqueue_out st1 s2 f) = clients st /\ msgs (enqueue_out st1 s2 f) = msgs st.
+  clients (enqueue_out st1 s2 f) = clients st /\
+  (forall x, msg_done (enqueue_out st1 s2 f) x = msg_done st x /\ msg_rsp (enqueue_out st1 s2 f) x = msg_rsp st x).
 Proof.
-  intros Hs Hq Hf st0 Hnd Hty Hpool Hget. unfold on_reply. rewrite Hs, Hq. fold st0. subst f. rewrite Hnd.
+  intros Hs Hq Hf st0 stm Hnd Hty Hpool Hget. unfold on_reply. rewrite Hs, Hq. fold st0. subst f. rewrite Hnd.
   assert ((ty =? RspMoved) || (ty =? RspAsk) = true)%bool as ->.
   { destruct Hty as [-> | ->]; [reflexivity | apply orb_true_r]. }
-  unfold on_moved. rewrite Hpool, Hget. split; [reflexivity|].
-  pose proof (same_cm_pool_get st0 p) as (A & B & _). rewrite Hget in A, B. cbn [fst] in A, B.
+  unfold on_moved. cbn [frag_slot]. fold stm. rewrite Hpool, Hget. split; [reflexivity|].
+  pose proof (same_cm_pool_get stm p) as (A & B & _). rewrite Hget in A, B. cbn [fst] in A, B.
   pose proof (same_cm_enqueue_out st1 s2 (FReq mid slot)) as (C & D & _).
-  split; [rewrite C, A | rewrite D, B]; reflexivity.
+  split.
+  - rewrite C, A. unfold stm, mark_moved. destruct (lookup mid (msgs st0)); reflexivity.
+  - intro x. unfold msg_done, msg_rsp. rewrite D, B. unfold stm, mark_moved.
+    destruct (lookup mid (msgs st0)) as [m|] eqn:Hm; [|split; reflexivity].
+    cbn [set_msg msgs]. rewrite lookup_update. destruct (Nat.eqb_spec x mid) as [->|]; [|split; reflexivity].
+    change (msgs st0) with (msgs st) in Hm. rewrite Hm. split; reflexivity.
 Qed.
 
 Lemma enqueue_out_tail st s f sv : lookup s (servers st) = Some sv ->
